@@ -206,7 +206,10 @@ impl Hash for K {
 }
 impl std::fmt::Debug for K {
     fn fmt(&self, f: &mut std::fmt::Formatter<'_>) -> std::fmt::Result {
-        write!(f, "k{}", self.tag)
+        // the formatter's options (hex, width, sign, alternate ...) reach the number, as they do for
+        // any derived Debug: a container that forwards a different formatter shows up in the output
+        f.write_str("k")?;
+        std::fmt::Debug::fmt(&self.tag, f)
     }
 }
 
@@ -264,7 +267,8 @@ impl PartialEq for V {
 impl Eq for V {}
 impl std::fmt::Debug for V {
     fn fmt(&self, f: &mut std::fmt::Formatter<'_>) -> std::fmt::Result {
-        write!(f, "v{}", self.payload)
+        f.write_str("v")?;
+        std::fmt::Debug::fmt(&self.payload, f)
     }
 }
 
@@ -380,4 +384,21 @@ impl serde::Serialize for V {
     fn serialize<S: serde::Serializer>(&self, s: S) -> Result<S::Ok, S::Error> {
         s.serialize_u64(self.payload)
     }
+}
+
+/// `x` rendered with Debug under a fixed list of format specifications (the options a caller can
+/// pass must reach every element, as with the standard collections)
+pub fn debug_renderings<T: std::fmt::Debug>(x: &T) -> Vec<String> {
+    vec![
+        format!("{:?}", x),
+        format!("{:#?}", x),
+        format!("{:x?}", x),
+        format!("{:#X?}", x),
+        format!("{:6?}", x),
+        format!("{:<5?}", x),
+        format!("{:+?}", x),
+        format!("{:07?}", x),
+        format!("{:.1?}", x),
+        format!("{:#08x?}", x),
+    ]
 }
